@@ -51,6 +51,7 @@ import (
 	"github.com/algorand/go-algorand/data/bookkeeping"
 	"github.com/algorand/go-algorand/data/committee"
 	"github.com/algorand/go-algorand/data/transactions"
+	"github.com/algorand/go-algorand/data/transactions/logic"
 	"github.com/algorand/go-algorand/ledger/eval"
 	"github.com/algorand/go-algorand/ledger/ledgercore"
 	"github.com/algorand/go-algorand/logging"
@@ -125,12 +126,29 @@ func lcB(b bool) string {
 // ----------------------------------------------------------------------------------------------- harness state
 
 type lcHarness struct {
-	t       testing.TB
-	l       *Ledger
-	ev      *eval.BlockEvaluator
-	known   []uint64 // asset ids that may exist (genesis + created)
-	genHash crypto.Digest
-	cases   int
+	t        testing.TB
+	l        *Ledger
+	ev       *eval.BlockEvaluator
+	known    []uint64 // asset ids that may exist (genesis + created)
+	genHash  crypto.Digest
+	cases    int
+	maxBytes int       // EvaluatorOptions.MaxTxnBytesPerBlock of this case (0 = the protocol's)
+	tracer   *lcTracer // records the ApplyData of every member the evaluator reached
+	lastSz   string    // " #sz=…" annotation of the last group executed
+}
+
+// lcTracer records, per group, the ApplyData of the members that were evaluated successfully (the sizes of their
+// SignedTxnInBlock are what the block-space accounting adds up).
+type lcTracer struct {
+	logic.NullEvalTracer
+	ads map[int]transactions.ApplyData
+}
+
+func (tr *lcTracer) BeforeTxnGroup(ep *logic.EvalParams) { tr.ads = map[int]transactions.ApplyData{} }
+func (tr *lcTracer) AfterTxn(ep *logic.EvalParams, gi int, ad transactions.ApplyData, err error) {
+	if err == nil && tr.ads != nil {
+		tr.ads[gi] = ad
+	}
 }
 
 func (h *lcHarness) closeLedger() {
@@ -153,6 +171,7 @@ func lcFields(tok string) (string, []string) {
 func (h *lcHarness) reset(op string) string {
 	h.closeLedger()
 	h.known = nil
+	h.maxBytes = 0
 	f := strings.Fields(op)
 	cv := protocol.ConsensusFuture
 	accts := make(map[basics.Address]basics.AccountData)
@@ -163,6 +182,8 @@ func (h *lcHarness) reset(op string) string {
 			if v[0] == "current" {
 				cv = protocol.ConsensusCurrentVersion
 			}
+		case k == "maxbytes":
+			h.maxBytes = int(vh.U(v[0]))
 		case k[0] == 'A':
 			id := vh.U(k[1:])
 			ad := basics.AccountData{Status: basics.Status(vh.U(v[0])), MicroAlgos: basics.MicroAlgos{Raw: vh.U(v[1])}}
@@ -223,17 +244,28 @@ func (h *lcHarness) addKnown(aid uint64) {
 
 // startBlock starts the evaluator of the next round and returns the observed constants + state
 func (h *lcHarness) startBlock() string {
-	h.ev = nextBlock(h.t, h.l)
+	// as the package's nextBlock helper, plus the block-space limit of the case and the recording tracer
+	prev, err := h.l.BlockHdr(h.l.Latest())
+	if err != nil {
+		panic(err)
+	}
+	nextHdr := bookkeeping.MakeBlock(prev).BlockHeader
+	nextHdr.TimeStamp = prev.TimeStamp + 1
+	h.tracer = &lcTracer{}
+	h.ev, err = eval.StartEvaluator(h.l, nextHdr, eval.EvaluatorOptions{Generate: true, Validate: true, MaxTxnBytesPerBlock: h.maxBytes, Tracer: h.tracer})
+	if err != nil {
+		panic(err)
+	}
 	p := h.ev.ConsensusParams()
 	r := p.BalanceRequirements()
 	sink, pool := h.ev.VerifLcoreSpecials()
 	var sb strings.Builder
-	fmt.Fprintf(&sb, "rnd=%d level=%d unit=%d minfee=%d reqs=%d,%d,%d,%d,%d,%d,%d,%d maxmb=%d life=%d maxgrp=%d maxassets=%d maxdec=%d unfunded=%s payouts=%s goonline=%d lookback=%d coh=%s spchk=%s nonpart=%s maxkv=%d sink=%s pool=%s sp=%d ",
+	fmt.Fprintf(&sb, "rnd=%d level=%d unit=%d minfee=%d reqs=%d,%d,%d,%d,%d,%d,%d,%d maxmb=%d life=%d maxgrp=%d maxassets=%d maxdec=%d unfunded=%s payouts=%s goonline=%d lookback=%d coh=%s spchk=%s nonpart=%s maxkv=%d sink=%s pool=%s sp=%d maxbytes=%d protobytes=%d loadtrack=%s ",
 		h.ev.Round(), h.ev.VerifLcoreRewardsLevel(), p.RewardUnit, p.MinFee().Raw,
 		r.MinBalance, r.AppFlatParamsMinBalance, r.AppFlatOptInMinBalance, r.BoxFlatMinBalance, r.BoxByteMinBalance, r.SchemaMinBalancePerEntry, r.SchemaUintMinBalance, r.SchemaBytesMinBalance,
 		p.MaximumMinimumBalance, p.MaxTxnLife, p.MaxTxGroupSize, p.MaxAssetsPerAccount, p.MaxAssetDecimals, lcB(p.UnfundedSenders), lcB(p.Payouts.Enabled), p.Payouts.GoOnlineFee,
 		uint64(agreement.BalanceLookback(p)), lcB(p.EnableKeyregCoherencyCheck), lcB(p.EnableStateProofKeyregCheck), lcB(p.SupportBecomeNonParticipatingTransactions), p.MaxKeyregValidPeriod,
-		lcAddrID(sink), lcAddrID(pool), lcSP)
+		lcAddrID(sink), lcAddrID(pool), lcSP, func() int { _, m := h.ev.VerifLcoreSpace(); return m }(), p.MaxTxnBytesPerBlock, lcB(p.LoadTracking))
 	sb.WriteString(h.dump())
 	return sb.String()
 }
@@ -254,7 +286,8 @@ func (h *lcHarness) acctTok(id uint64) string {
 
 func (h *lcHarness) dump() string {
 	var sb strings.Builder
-	fmt.Fprintf(&sb, "payset=%d fees=%d ctr=%d", h.ev.PaySetSize(), h.ev.VerifLcoreFees(), h.ev.VerifLcoreCounter())
+	used, _ := h.ev.VerifLcoreSpace()
+	fmt.Fprintf(&sb, "payset=%d fees=%d ctr=%d space=%d", h.ev.PaySetSize(), h.ev.VerifLcoreFees(), h.ev.VerifLcoreCounter(), used)
 	for id := uint64(0); id < lcN; id++ {
 		sb.WriteByte(' ')
 		sb.WriteString(h.acctTok(id))
@@ -303,9 +336,9 @@ func (h *lcHarness) parseTxn(s string) (transactions.Transaction, uint64, error)
 	u := func(i int) uint64 { return vh.U(f[i]) }
 	var tx transactions.Transaction
 	tx.Header = transactions.Header{Sender: lcAddr(u(1)), Fee: basics.MicroAlgos{Raw: u(2)}, FirstValid: basics.Round(u(3)), LastValid: basics.Round(u(4)), GenesisHash: h.l.GenesisHash()}
-	if n := u(5); n != 0 {
-		tx.Note = make([]byte, 8)
-		binary.BigEndian.PutUint64(tx.Note, n)
+	if n := u(5); n != 0 { // note number = nonce + 2^40·pad: the 8-byte nonce followed by `pad` zero bytes (sizes the transaction)
+		tx.Note = make([]byte, 8+int(n>>40))
+		binary.BigEndian.PutUint64(tx.Note, n&(1<<40-1))
 	}
 	need := map[string]int{"pay": 10, "keyreg": 14, "acfg": 15, "axfer": 12, "afrz": 10}[f[0]]
 	if need == 0 || len(f) != need {
@@ -384,6 +417,8 @@ func lcClassify(err error) string {
 		return "panic"
 	case errors.Is(err, ledgercore.ErrEvaluatorCorruptedState):
 		return "corrupted"
+	case errors.Is(err, ledgercore.ErrNoSpace):
+		return "nospace"
 	case errors.As(err, &ovs):
 		return "overspend"
 	case errors.As(err, &mb):
@@ -435,7 +470,13 @@ func lcClassify(err error) string {
 	return "other:" + strings.ReplaceAll(m, " ", "_")
 }
 
-func (h *lcHarness) group(op string) string {
+// buildGroup parses a group op (an optional " #sz=…" annotation is returned separately) into unsigned transactions with
+// their group ids set
+func (h *lcHarness) buildGroup(op string) ([]transactions.SignedTxn, string, bool) {
+	ann := ""
+	if i := strings.Index(op, " #sz="); i >= 0 {
+		op, ann = op[:i], op[i:]
+	}
 	rest := strings.TrimSpace(strings.TrimPrefix(op, "group"))
 	var stxns []transactions.SignedTxn
 	var tags []uint64
@@ -443,7 +484,7 @@ func (h *lcHarness) group(op string) string {
 		for _, s := range strings.Split(rest, ";") {
 			tx, tag, err := h.parseTxn(s)
 			if err != nil {
-				return "bad-op"
+				return nil, ann, false
 			}
 			stxns = append(stxns, transactions.SignedTxn{Txn: tx})
 			tags = append(tags, tag)
@@ -467,9 +508,39 @@ func (h *lcHarness) group(op string) string {
 			stxns[i].Txn.Group = crypto.Hash(b[:])
 		}
 	}
+	return stxns, ann, true
+}
+
+func (h *lcHarness) group(op string) string {
+	stxns, ann, ok := h.buildGroup(op)
+	if !ok {
+		return "bad-op"
+	}
 	ctrBefore := h.ev.VerifLcoreCounter()
+	h.tracer.ads = nil
 	err := h.ev.TransactionGroup(transactions.WrapSignedTxnsWithAD(stxns)...)
 	cls := lcClassify(err)
+	// the encoded size of every member that was evaluated (0 for the others): an input of the model's space accounting
+	sz := make([]string, len(stxns))
+	for i := range stxns {
+		sz[i] = "0"
+		if ad, reached := h.tracer.ads[i]; reached {
+			sz[i] = strconv.Itoa(h.ev.VerifLcoreEncodedLen(stxns[i], ad))
+		}
+	}
+	h.lastSz = ""
+	if len(stxns) > 0 {
+		h.lastSz = " #sz=" + strings.Join(sz, ",")
+	}
+	if ann != "" && ann != h.lastSz { // replay: the recorded sizes of the members reached NOW must be the ones measured now
+		rec := strings.Split(strings.TrimPrefix(ann, " #sz="), ",")
+		for i := range sz {
+			if sz[i] != "0" && (i >= len(rec) || rec[i] != sz[i]) {
+				cls = "DIVERGED-SZ" + strings.ReplaceAll(h.lastSz, " ", "") + " " + cls
+				break
+			}
+		}
+	}
 	if err != nil {
 		m := err.Error()
 		if strings.HasPrefix(m, "transaction ") {
@@ -511,7 +582,7 @@ func (h *lcHarness) endblock() string {
 	}
 	h.l.WaitForCommit(h.l.Latest())
 	tot := vvb.Delta().Totals
-	res := fmt.Sprintf("end payset=%d ctr=%d all=%d", len(vvb.Block().Payset), vvb.Block().TxnCounter, tot.All().Raw)
+	res := fmt.Sprintf("end payset=%d ctr=%d all=%d load=%d", len(vvb.Block().Payset), vvb.Block().TxnCounter, tot.All().Raw, uint64(vvb.Block().Load))
 	h.ev = nil
 	return res
 }
@@ -606,6 +677,11 @@ type lcGen struct {
 	bandCase  bool
 	bandAccts []uint64
 	bandQ     [][2]string
+	// block-space stream (C19): a case with a small MaxTxnBytesPerBlock; when the block is nearly full, groups sized to land
+	// exactly on / one byte over / one byte under the remaining space
+	spaceCase bool
+	spaceQ    []string
+	spaceDone bool
 }
 
 func (g *lcGen) pick(xs ...uint64) uint64 { return xs[g.r.Intn(len(xs))] }
@@ -1116,7 +1192,10 @@ func (g *lcGen) scriptAssets(v *lcView) []string {
 	}
 	one(g.ph("axfer", a) + fmt.Sprintf(",%d,%d,0,%d,0", aid, x, b))
 	one(g.ph("afrz", frz) + fmt.Sprintf(",%d,%d,1", aid, b))
-	one(g.ph("axfer", b) + fmt.Sprintf(",%d,%d,0,%d,0", aid, g.pick(0, 1, x), c))         // out of a frozen holding
+	one(g.ph("axfer", b) + fmt.Sprintf(",%d,%d,0,%d,0", aid, g.pick(0, 1, x), c)) // out of a frozen holding
+	if g.r.Chance(60) {                                                           // the frozen holder pays a third party (or the creator) a positive amount while closing out to the creator: must be rejected
+		one(g.ph("axfer", b) + fmt.Sprintf(",%d,%d,0,%d,%d", aid, g.pick(1, x/2+1, x), g.pick(c, c, a), a))
+	}
 	one(g.ph("axfer", a) + fmt.Sprintf(",%d,%d,0,%d,0", aid, g.pick(0, 1), b))            // into a frozen holding
 	one(g.ph("axfer", clw) + fmt.Sprintf(",%d,%d,%d,%d,0", aid, g.pick(1, x/2, x), b, c)) // clawback from frozen b
 	one(g.ph("axfer", g.pick(a, b, c)) + fmt.Sprintf(",%d,1,%d,%d,0", aid, b, c))         // clawback by somebody (maybe not the clawback address)
@@ -1347,6 +1426,196 @@ func (g *lcGen) scriptAliasSetup(v *lcView) []string {
 	return out
 }
 
+// genFrozenClose: the "frozen + close-to" stream (single-transaction groups, so that the monitor can attribute every change).
+// For an asset with a frozen holder H: a transfer H→R of a ∈ {0, 1, part, all, all+1} with AssetCloseTo ∈ {creator, another
+// holder, H itself, none}, sent by H or by the clawback address (AssetSender = H), to a receiver that is frozen / unfrozen /
+// not opted in / the creator / H.  Legitimate shapes (zero amount + close-out to the creator, clawback moves) and forbidden
+// ones (a positive amount out of the frozen holding without clawback, whatever the close-to) both occur.  Without a frozen
+// holder it freezes one.
+func (g *lcGen) genFrozenClose(v *lcView) string {
+	type fh struct{ h, aid uint64 }
+	var frozen []fh
+	var freezable []string
+	for _, aid := range v.assets {
+		cr := v.creat[aid]
+		frz := lcID(v.params[aid].Freeze)
+		for id := uint64(1); id <= 6; id++ {
+			hd, ok := v.hold[[2]uint64{id, aid}]
+			if !ok || id == cr {
+				continue
+			}
+			if hd.Frozen {
+				frozen = append(frozen, fh{id, aid})
+			} else if frz != 0 {
+				freezable = append(freezable, g.ph("afrz", frz)+fmt.Sprintf(",%d,%d,1", aid, id))
+			}
+		}
+	}
+	if len(frozen) == 0 || (len(freezable) > 0 && g.r.Chance(15)) {
+		if len(freezable) == 0 {
+			return ""
+		}
+		return "group " + freezable[g.r.Intn(len(freezable))]
+	}
+	f := frozen[g.r.Intn(len(frozen))]
+	H, aid := f.h, f.aid
+	cr := v.creat[aid]
+	clw := lcID(v.params[aid].Clawback)
+	hd := v.hold[[2]uint64{H, aid}]
+	var holders, others []uint64
+	for id := uint64(1); id <= 6; id++ {
+		if id == H {
+			continue
+		}
+		if _, ok := v.hold[[2]uint64{id, aid}]; ok {
+			holders = append(holders, id)
+		} else {
+			others = append(others, id)
+		}
+	}
+	rcv := cr
+	switch k := g.r.Intn(10); {
+	case k < 6 && len(holders) > 0:
+		rcv = holders[g.r.Intn(len(holders))]
+	case k < 7 && len(others) > 0:
+		rcv = others[g.r.Intn(len(others))]
+	case k < 8:
+		rcv = H
+	}
+	amt := g.pick(0, 1, 1, hd.Amount/2, hd.Amount, hd.Amount, hd.Amount+1)
+	cl := cr
+	switch k := g.r.Intn(10); {
+	case k < 5:
+	case k < 7 && len(holders) > 0:
+		cl = holders[g.r.Intn(len(holders))]
+	case k < 8:
+		cl = H
+	default:
+		cl = 0
+	}
+	if clw != 0 && g.r.Chance(20) { // the clawback address moves units out of the frozen holding
+		if g.r.Chance(90) {
+			cl = 0
+		}
+		return "group " + g.ph("axfer", clw) + fmt.Sprintf(",%d,%d,%d,%d,%d", aid, amt, H, rcv, cl)
+	}
+	return "group " + g.ph("axfer", H) + fmt.Sprintf(",%d,%d,0,%d,%d", aid, amt, rcv, cl)
+}
+
+// settled funded accounts: their payments carry an empty ApplyData (no pending rewards), so their encoded size is known
+func (g *lcGen) settled(v *lcView) []uint64 {
+	var out []uint64
+	for id := uint64(1); id <= 6; id++ {
+		d := v.acct[id]
+		if (d.RewardsBase == g.level || d.Status == basics.NotParticipating || d.MicroAlgos.Raw < g.unit) && d.MicroAlgos.Raw >= 3000000 {
+			out = append(out, id)
+		}
+	}
+	return out
+}
+
+// estimate the bytes a group would be charged (empty ApplyData)
+func (g *lcGen) estimate(op string) int {
+	stxns, _, ok := g.h.buildGroup(op)
+	if !ok {
+		return -1
+	}
+	n := 0
+	for i := range stxns {
+		n += g.h.ev.VerifLcoreEncodedLen(stxns[i], transactions.ApplyData{})
+	}
+	return n
+}
+
+// genSpace: a group of payments between settled accounts whose total encoded size is the remaining block space (mode
+// "exact": accepted, the block is then full), one byte more ("over1": ErrNoSpace at the last member), one byte less
+// ("under1"), or crosses the limit at member k of a longer group ("overk"); "tiny": one more payment.  Amount widths
+// (1, 2, 3, 5 msgpack bytes) tune the size byte by byte.
+func (g *lcGen) genSpace(v *lcView, mode string) string {
+	used, max := g.h.ev.VerifLcoreSpace()
+	R := max - used
+	st := g.settled(v)
+	if len(st) < 2 {
+		u := g.funded(v, 2, 3000000)
+		if len(u) < 2 {
+			return ""
+		}
+		g.spaceQ = append([]string{mode}, g.spaceQ...) // prime: settle two accounts first, then retry
+		return "group " + g.ph("pay", u[0]) + fmt.Sprintf(",%d,1,0", u[1])
+	}
+	a, b := st[0], st[1]
+	if g.r.Bool() {
+		a, b = b, a
+	}
+	// members: payments a→b of 1 µAlgo; the LAST of the first n members carries `pad` extra note bytes
+	build := func(n int, pad uint64, extra int) string {
+		var ts []string
+		tag := "1"
+		if n+extra == 1 {
+			tag = "0"
+		}
+		for i := 0; i < n+extra; i++ {
+			t := lcSetTag(g.ph("pay", a)+fmt.Sprintf(",%d,1,0", b), tag)
+			if i == n-1 && pad > 0 {
+				f := strings.Split(t, ",")
+				f[5] = strconv.FormatUint(vh.U(f[5])+pad<<40, 10)
+				t = strings.Join(f, ",")
+			}
+			ts = append(ts, t)
+		}
+		return "group " + strings.Join(ts, ";")
+	}
+	// bytes charged for the first n members of the group
+	first := func(op string, n int) int {
+		stxns, _, ok := g.h.buildGroup(op)
+		if !ok {
+			return -1
+		}
+		tot := 0
+		for i := 0; i < n && i < len(stxns); i++ {
+			tot += g.h.ev.VerifLcoreEncodedLen(stxns[i], transactions.ApplyData{})
+		}
+		return tot
+	}
+	T := R
+	switch mode {
+	case "over1", "overk":
+		T = R + 1
+	case "under1":
+		T = R - 1
+	case "tiny":
+		return build(1, 0, 0)
+	}
+	extra := 0
+	if mode == "overk" {
+		extra = 1 + g.r.Intn(3)
+	}
+	one := first(build(2, 0, 0), 1)
+	if one <= 0 || T < first(build(1, 0, 0), 1) {
+		return build(1, 0, 0) // not even one payment fits
+	}
+	n := 1 + g.r.Intn(3)
+	for n > 1 && n*one > T {
+		n--
+	}
+	if n+extra == 1 && T > 126+900 {
+		n = 2
+	}
+	pad := uint64(0)
+	for it := 0; it < 6; it++ {
+		est := first(build(n, pad, extra), n)
+		if est == T {
+			break
+		}
+		np := int64(pad) + int64(T-est)
+		if np < 0 || np > 900 {
+			break
+		}
+		pad = uint64(np)
+	}
+	return build(n, pad, extra)
+}
+
 // manyAssets: one group in which `a` creates n assets, raising its min balance above one reward unit
 func (g *lcGen) manyAssets(a uint64, n int) string {
 	var ts []string
@@ -1485,6 +1754,10 @@ func (g *lcGen) genesis() string {
 	} else {
 		sb.WriteString("future")
 	}
+	g.spaceCase = (g.profile == "c19" && g.r.Chance(40)) || (g.profile != "c19" && g.r.Chance(8))
+	if g.spaceCase {
+		fmt.Fprintf(&sb, " maxbytes=%d", g.pick(700, 1500, 1500, 3000))
+	}
 	mb := uint64(100000)
 	var gbal [lcN]uint64
 	huge := false
@@ -1610,12 +1883,17 @@ func TestVerifLcore(t *testing.T) {
 			g.okTxns = nil
 			g.tAccts, g.tAssets, g.forceN = map[uint64]bool{}, map[uint64]bool{}, 0
 			ngroups := 6 + g.r.Intn(18)
+			fc := 3 // share of frozen + close-to groups
+			if profile == "c22" {
+				fc = 16
+			}
 			tf := 6 // share of touch-then-fail groups
 			if profile == "c19" || profile == "c22" {
 				tf = 18
 			}
 			var script []string
 			g.bandQ = nil
+			g.spaceQ, g.spaceDone = nil, false
 			if g.bandCase {
 				v0 := h.view()
 				if b == 0 {
@@ -1649,6 +1927,22 @@ func TestVerifLcore(t *testing.T) {
 			for i := 0; i < total; i++ {
 				v := h.view()
 				var op string
+				if g.spaceCase && !g.spaceDone && i >= len(script) {
+					if used, max := h.ev.VerifLcoreSpace(); max-used < 900 {
+						g.spaceDone = true
+						if g.r.Chance(65) {
+							g.spaceQ = []string{"over1", "overk", "exact", "tiny"}
+						} else {
+							g.spaceQ = []string{"overk", "under1", "over1", "tiny"}
+						}
+						total += len(g.spaceQ) + 2
+					}
+				}
+				for op == "" && i >= len(script) && len(g.spaceQ) > 0 {
+					m := g.spaceQ[0]
+					g.spaceQ = g.spaceQ[1:]
+					op = g.genSpace(v, m)
+				}
 				for op == "" && i >= len(script) && len(g.bandQ) > 0 {
 					q := g.bandQ[0]
 					g.bandQ = g.bandQ[1:]
@@ -1661,6 +1955,10 @@ func TestVerifLcore(t *testing.T) {
 				case g.forceN > 0:
 					g.forceN--
 					op = g.genTouchFail(v, g.forceAsset)
+				case g.r.Chance(fc):
+					if op = g.genFrozenClose(v); op == "" {
+						op = g.genGroup(v)
+					}
 				case g.r.Chance(tf):
 					op = g.genTouchFail(v, 0)
 				default:
@@ -1668,7 +1966,11 @@ func TestVerifLcore(t *testing.T) {
 				}
 				ctrBefore := h.ev.VerifLcoreCounter()
 				res := h.exec(op)
-				out.Emit(op, res)
+				if strings.HasPrefix(op, "group") {
+					out.Emit(op+h.lastSz, res)
+				} else {
+					out.Emit(op, res)
+				}
 				if strings.HasPrefix(res, "ok ") && len(op) > 6 {
 					g.okTxns = append(g.okTxns, strings.Split(op[6:], ";")...)
 					g.noteTouched(op, ctrBefore)
